@@ -1,17 +1,22 @@
 //! Interleaving engine: deviation-bounded DFS over schedules of the real
 //! stream / runner code on shuttle (C03, C04, C05, C07).
 mod dfs;
+mod graphs;
 mod streams;
 
 use serde_json::{Value, json};
 use vcommon::*;
 
+use graphs::RunParams;
 use streams::{EosParams, PcParams};
+use vcommon::graphs::{GraphSpec, Shape, Stage};
 
 #[derive(Clone, Debug)]
 pub enum Scenario {
     Pc(PcParams),
     Eos(EosParams),
+    MtResult(GraphSpec, u32),
+    Run(RunParams),
 }
 
 impl Scenario {
@@ -19,12 +24,21 @@ impl Scenario {
         match self {
             Scenario::Pc(p) => p.to_json(),
             Scenario::Eos(p) => p.to_json(),
+            Scenario::MtResult(g, d) => {
+                let mut v = g.to_json();
+                v["scenario"] = json!("mtresult");
+                v["dmax"] = json!(d);
+                v
+            }
+            Scenario::Run(p) => p.to_json(),
         }
     }
     fn from_json(v: &Value) -> Self {
         match v["scenario"].as_str().unwrap() {
             "pc" => Scenario::Pc(PcParams::from_json(v)),
             "eos" => Scenario::Eos(EosParams::from_json(v)),
+            "mtresult" => Scenario::MtResult(GraphSpec::from_json(v), v["dmax"].as_u64().unwrap_or(1) as u32),
+            "run" => Scenario::Run(RunParams::from_json(v)),
             s => panic!("unknown scenario {s}"),
         }
     }
@@ -32,14 +46,192 @@ impl Scenario {
         match self {
             Scenario::Pc(_) => "producer-consumer".into(),
             Scenario::Eos(p) => p.kind.clone(),
+            Scenario::MtResult(g, _) => match &g.shape {
+                Shape::Chain(st) => format!("chain{:?}", st).replace(' ', ""),
+                Shape::Tee(..) => "tee".into(),
+                Shape::Diamond(..) => "diamond".into(),
+                Shape::Merge(_) => "merge".into(),
+                Shape::Packets(_) => "packets".into(),
+            },
+            Scenario::Run(p) => format!("{}-{}", p.kind, p.runner),
+        }
+    }
+    /// Deviation bound for this scenario, if it has its own.
+    fn dmax(&self) -> Option<u32> {
+        match self {
+            Scenario::MtResult(_, d) => Some(*d),
+            _ => None,
         }
     }
     fn run(&self) {
         match self {
             Scenario::Pc(p) => streams::pc_scenario(p),
             Scenario::Eos(p) => streams::eos_scenario(p),
+            Scenario::MtResult(g, _) => graphs::mt_result_scenario(g),
+            Scenario::Run(p) => graphs::run_scenario(p),
         }
     }
+}
+
+fn perms(n: usize) -> Vec<Vec<usize>> {
+    fn rec(cur: &mut Vec<usize>, used: &mut Vec<bool>, n: usize, out: &mut Vec<Vec<usize>>) {
+        if cur.len() == n {
+            out.push(cur.clone());
+            return;
+        }
+        for i in 0..n {
+            if !used[i] {
+                used[i] = true;
+                cur.push(i);
+                rec(cur, used, n, out);
+                cur.pop();
+                used[i] = false;
+            }
+        }
+    }
+    let mut out = vec![];
+    rec(&mut vec![], &mut vec![false; n], n, &mut out);
+    out
+}
+
+/// A few add orders: identity, reversed, and rotations.
+fn some_orders(n: usize) -> Vec<Vec<usize>> {
+    let id: Vec<usize> = (0..n).collect();
+    let mut v = vec![id.clone(), id.iter().rev().copied().collect()];
+    let mut r = id.clone();
+    r.rotate_left(1);
+    v.push(r);
+    let mut r = id.clone();
+    r.rotate_right(1);
+    r.swap(0, n - 1);
+    if !v.contains(&r) {
+        v.push(r);
+    }
+    v
+}
+
+fn c05_scenarios(thorough: bool) -> Vec<Scenario> {
+    let mut v = Vec::new();
+    let stages = [
+        Stage::AddConst(1),
+        Stage::Skip(1),
+        Stage::Resamp(2, 1),
+        Stage::Resamp(1, 2),
+        Stage::MoveWait,
+        Stage::SyncId,
+    ];
+    let d_all = if thorough { 2 } else { 1 };
+    for per_page in [1usize, 2] {
+        let cap = per_page;
+        let lens: Vec<usize> = if thorough {
+            vec![0, 1, cap, cap + 1, 2 * cap + 1]
+        } else {
+            vec![0, 1, cap + 1, 2 * cap + 1]
+        };
+        for st in &stages {
+            for &len in &lens {
+                let orders = if thorough { perms(3) } else { some_orders(3) };
+                for order in orders {
+                    v.push(Scenario::MtResult(
+                        GraphSpec {
+                            shape: Shape::Chain(vec![st.clone()]),
+                            per_page,
+                            pages: 1,
+                            src_len: len,
+                            order,
+                        },
+                        d_all,
+                    ));
+                }
+            }
+        }
+        // Tee to two sinks.
+        for &len in &lens {
+            let orders = if thorough { perms(4) } else { some_orders(4) };
+            for order in orders {
+                v.push(Scenario::MtResult(
+                    GraphSpec {
+                        shape: Shape::Tee(None, None),
+                        per_page,
+                        pages: 1,
+                        src_len: len,
+                        order,
+                    },
+                    1,
+                ));
+            }
+        }
+    }
+    // Two-page streams, and the packet stage: fewer configurations.
+    for order in some_orders(3) {
+        v.push(Scenario::MtResult(
+            GraphSpec {
+                shape: Shape::Chain(vec![Stage::AddConst(1)]),
+                per_page: 1,
+                pages: 2,
+                src_len: 5,
+                order,
+            },
+            d_all,
+        ));
+    }
+    // Designated deep runs: capacity-1 chains at a higher bound.
+    for (st, len) in [(Stage::AddConst(1), 3usize), (Stage::MoveWait, 2)] {
+        v.push(Scenario::MtResult(
+            GraphSpec {
+                shape: Shape::Chain(vec![st]),
+                per_page: 1,
+                pages: 1,
+                src_len: len,
+                order: vec![0, 1, 2],
+            },
+            d_all + 1,
+        ));
+    }
+    v
+}
+
+fn c07_scenarios(thorough: bool) -> Vec<Scenario> {
+    let mut v = Vec::new();
+    for runner in ["mt", "st"] {
+        for (infinite, len) in [(true, 0usize), (false, 3), (false, 0)] {
+            v.push(Scenario::Run(RunParams {
+                kind: "cancel".into(),
+                runner: runner.into(),
+                infinite,
+                src_len: len,
+                fail_block: 0,
+                fail_call: 0,
+                cancel_early: false,
+            }));
+        }
+        v.push(Scenario::Run(RunParams {
+            kind: "cancel".into(),
+            runner: runner.into(),
+            infinite: true,
+            src_len: 0,
+            fail_block: 0,
+            fail_call: 0,
+            cancel_early: true,
+        }));
+        for fail_block in 0..3 {
+            for fail_call in 1..=3 {
+                for (infinite, len) in [(true, 0usize), (false, 5)] {
+                    v.push(Scenario::Run(RunParams {
+                        kind: "fail".into(),
+                        runner: runner.into(),
+                        infinite,
+                        src_len: len,
+                        fail_block,
+                        fail_call,
+                        cancel_early: false,
+                    }));
+                }
+            }
+        }
+    }
+    let _ = thorough;
+    v
 }
 
 /// Can the two scripts complete at all on a buffer of this capacity? (A
@@ -151,6 +343,8 @@ fn scenarios(prop: &str, thorough: bool) -> Vec<Scenario> {
     match prop {
         "C03" => c03_scenarios(thorough),
         "C04" => c04_scenarios(thorough),
+        "C05" => c05_scenarios(thorough),
+        "C07" => c07_scenarios(thorough),
         _ => vec![],
     }
 }
@@ -161,14 +355,74 @@ fn max_bound(prop: &str, thorough: bool) -> u32 {
         ("C03", true) => 3,
         ("C04", false) => 2,
         ("C04", true) => 3,
+        ("C07", false) => 2,
+        ("C07", true) => 3,
         (_, false) => 1,
         (_, true) => 2,
     }
 }
 
+/// Do non-preemptive alternatives cost a deviation? Only for the runner
+/// scenarios, whose executions are long (see dfs::Search::free_alt_cost).
+fn free_alt_cost(sc: &Scenario) -> u8 {
+    match sc {
+        Scenario::Pc(_) | Scenario::Eos(_) => 0,
+        Scenario::MtResult(..) | Scenario::Run(_) => 1,
+    }
+}
+
+struct Ctx {
+    rep: Report,
+    prop: String,
+    scenario: Value,
+    subject: String,
+    bound: u32,
+    replay_mode: bool,
+    executions_before: u64,
+}
+
+static CTX: std::sync::Mutex<Option<Ctx>> = std::sync::Mutex::new(None);
+
+fn install_fatal_handler() {
+    *dfs::ON_FATAL.lock().unwrap() = Some(Box::new(|kind, msg, choices| {
+        let mut g = CTX.lock().unwrap_or_else(|e| e.into_inner());
+        let ctx = g.as_mut().expect("fatal outside exploration");
+        if ctx.replay_mode {
+            println!("replay: VIOLATION reproduced: [{kind}] {msg}");
+            use std::io::Write;
+            let _ = std::io::stdout().flush();
+            std::process::exit(1);
+        }
+        let sig = format!("{}/{}/{kind}", ctx.prop, ctx.subject);
+        ctx.rep.violation(
+            sig,
+            format!("{} at deviation bound {}: {msg}", ctx.scenario, ctx.bound),
+            json!({"engine":"mt","bin":"vmt","scenario":ctx.scenario,"choices":choices,"bound":ctx.bound}),
+        );
+        ctx.rep.emit();
+        use std::io::Write;
+        let _ = std::io::stdout().flush();
+        std::process::exit(0);
+    }));
+    // A panic that nobody is prepared to catch is a violation found in the
+    // explored code ("never a panic"), reported at the point where it happens.
+    std::panic::set_hook(Box::new(|info| {
+        if vcommon::in_catch() {
+            return;
+        }
+        let msg = format!("{info}");
+        match dfs::current_choices() {
+            Some(c) => dfs::fatal("panic", &msg, c),
+            None => {
+                eprintln!("machinery panic: {msg}");
+                std::process::exit(3);
+            }
+        }
+    }));
+}
+
 fn main() {
     let args: Vec<String> = std::env::args().collect();
-    quiet_panics();
     if args.len() >= 3 && args[1] == "replay" {
         let txt = std::fs::read_to_string(&args[2]).expect("read replay file");
         let v: Value = serde_json::from_str(&txt).expect("parse replay file");
@@ -179,25 +433,31 @@ fn main() {
             .iter()
             .map(|x| x.as_u64().unwrap() as u32)
             .collect();
+        *CTX.lock().unwrap() = Some(Ctx {
+            rep: Report::new("", "mt"),
+            prop: String::new(),
+            scenario: sc.to_json(),
+            subject: sc.subject(),
+            bound: 0,
+            replay_mode: true,
+            executions_before: 0,
+        });
+        install_fatal_handler();
         let sc2 = sc.clone();
-        let ex = dfs::explore(u32::MAX, Some(choices), 1, move || sc2.run());
+        let ex = dfs::explore(u32::MAX, free_alt_cost(&sc), Some(choices), 1, move || sc2.run());
         if let Some(e) = ex.machinery_error {
             println!("replay: machinery error: {e}");
             std::process::exit(3);
         }
-        match ex.failure {
-            Some((kind, msg, _)) => {
-                println!("replay: VIOLATION reproduced: [{kind}] {msg}");
-                std::process::exit(1);
-            }
-            None => {
-                println!("replay: no violation");
-                std::process::exit(0);
-            }
-        }
+        println!("replay: no violation");
+        std::process::exit(0);
+    }
+    if args.len() >= 4 && args[1] == "count" {
+        println!("{}", scenarios(&args[2], args[3] == "thorough").len());
+        return;
     }
     if args.len() < 3 {
-        eprintln!("usage: vmt <property> <tier> [shard/nshards] | vmt replay <file>");
+        eprintln!("usage: vmt <property> <tier> [shard/nshards] | vmt count <property> <tier> | vmt replay <file>");
         std::process::exit(3);
     }
     let prop = args[1].clone();
@@ -211,9 +471,9 @@ fn main() {
     };
     let mut rep = Report::new(&prop, "mt");
     rep.rule = "executions of the real code under a controlled scheduler (shuttle runtime, own deviation-bounded DFS): \
-        every interleaving at lock / unlock / after-unlock / wait / notify / spawn / join points with at most d preemptions \
-        plus early timeouts, d iterated from 0; each execution is one case; distinct_nontrivial counts executions with at \
-        least one deviation from the default schedule"
+        every interleaving at lock / unlock / after-unlock / wait / notify / spawn / join points with at most d deviations \
+        (preemptions, early timeouts; for runner scenarios also non-default picks at blocking points), d iterated from 0; \
+        each execution is one case; distinct_nontrivial counts executions with at least one deviation from the default schedule"
         .into();
     rep.assumptions = vec![
         "sample memory is touched only through window slices, so window disjointness (monitored) stands in for a data-race detector".into(),
@@ -222,16 +482,27 @@ fn main() {
     ];
     let scs = scenarios(&prop, thorough);
     let dmax = max_bound(&prop, thorough);
-    let mut completed_bound = vec![];
-    let max_exec = if thorough { 50_000_000 } else { 3_000_000 };
-    'outer: for (i, sc) in scs.iter().enumerate() {
+    let max_exec: u64 = if thorough { 50_000_000 } else { 3_000_000 };
+    install_fatal_handler();
+    let mut completed = vec![];
+    for (i, sc) in scs.iter().enumerate() {
         if i % nshards != shard {
             continue;
         }
         let mut last = None;
-        for d in 0..=dmax {
+        for d in 0..=sc.dmax().unwrap_or(dmax) {
+            *CTX.lock().unwrap() = Some(Ctx {
+                rep: std::mem::replace(&mut rep, Report::new(&prop, "mt")),
+                prop: prop.clone(),
+                scenario: sc.to_json(),
+                subject: sc.subject(),
+                bound: d,
+                replay_mode: false,
+                executions_before: 0,
+            });
             let sc2 = sc.clone();
-            let ex = dfs::explore(d, None, max_exec, move || sc2.run());
+            let ex = dfs::explore(d, free_alt_cost(sc), None, max_exec, move || sc2.run());
+            rep = CTX.lock().unwrap().take().unwrap().rep;
             rep.evaluations += ex.executions;
             rep.transitions += ex.steps;
             rep.states += ex.steps;
@@ -240,37 +511,23 @@ fn main() {
                 rep.distinct_nontrivial += ex.executions.saturating_sub(1);
             }
             if let Some(e) = &ex.machinery_error {
-                eprintln!("machinery error in {:?} at bound {d}: {e}", sc.to_json());
+                eprintln!("machinery error in {} at bound {d}: {e}", sc.to_json());
                 std::process::exit(3);
             }
             if ex.capped {
                 rep.cap(format!("{} bound {d}: execution cap {max_exec} reached", sc.to_json()));
             }
-            if let Some((kind, msg, choices)) = &ex.failure {
-                rep.violation(
-                    format!("{prop}/{}/{kind}", sc.subject()),
-                    format!("{} at deviation bound {d} (execution {}): {msg}", sc.to_json(), ex.executions),
-                    json!({"engine":"mt","bin":"vmt","scenario":sc.to_json(),"choices":choices,"bound":d}),
-                );
-                if kind == "panic" {
-                    // The runtime was torn down by a panic. Don't trust this
-                    // process for further scenarios.
-                    rep.cap("shard stopped after a panic inside the explored code");
-                    break 'outer;
-                }
-                break;
-            }
             last = Some((d, ex.executions, ex.steps, ex.max_steps, ex.max_points));
         }
         if let Some((d, e, s, ms, mp)) = last {
-            completed_bound.push(json!({"scenario": sc.to_json(), "bound_completed": d, "executions_at_bound": e,
+            completed.push(json!({"scenario": sc.to_json(), "bound_completed": d, "executions_at_bound": e,
                 "scheduling_points": s, "longest_execution": ms, "max_choice_points": mp}));
             if rep.samples.len() < 4 {
                 rep.sample(json!({"scenario": sc.to_json(), "bound": d, "executions": e}));
             }
         }
     }
-    rep.set("scenarios", json!(completed_bound));
+    rep.set("scenarios", json!(completed));
     rep.set("max_deviation_bound", json!(dmax));
     rep.emit();
 }
